@@ -1,6 +1,7 @@
 (** Property C19 — the theorems the check counts as obligations.  Nothing but
     statements closed by [exact] and [Print Assumptions]. *)
-From HS Require Import Base.Prelude C19.Model C19.MQ.
+From HS Require Import Base.Prelude C19.Model C19.MQ C19.MQOrder C19.TopicModel C19.Topic.
+From Coq Require Import Sorting.Sorted.
 Local Open Scope Z_scope.
 
 (** MessageQueue, every operation sequence: each published message occurs
@@ -81,3 +82,45 @@ Theorem c19_mq_delivery_reaches_consumer : forall cfg s h mid c ops now,
     if mem mid (q_msgs s') then [ODelivery c mid (m_count (q_obj s' mid)) now] else [ONone].
 Proof. exact mq_delivery_reaches_consumer. Qed.
 Print Assumptions c19_mq_delivery_reaches_consumer.
+
+(** First deliveries follow publish order (ids are publish indices), for every
+    operation sequence in which rejects and redelivery events concern only
+    messages that were delivered before ([wf_ops]; satisfiable:
+    MQOrder.mq_order_example; necessary: MQOrder.mq_order_needs_wf). *)
+Theorem c19_mq_first_deliveries_in_publish_order : forall cfg ops,
+  wf_ops cfg mq_init ops -> StronglySorted Z.lt (g_first (run cfg ops)).
+Proof. exact mq_first_deliveries_in_publish_order. Qed.
+Print Assumptions c19_mq_first_deliveries_in_publish_order.
+
+(** Topic: publish() snapshots exactly the subscribers active at publish time,
+    without duplicates. *)
+Theorem c19_topic_publish_snapshot : forall mx ops h mid,
+  let s := trun mx ops in
+  let act := actives (t_subs s) in
+  NoDup act /\
+  (forall c, In c act <-> exists x, In x (t_subs s) /\ ts_id x = c /\ ts_active x = true) /\
+  (act <> [] -> snd (tstep mx s (TPublishBegin h mid)) = [TSuspend] /\
+                lookup h (t_frames (fst (tstep mx s (TPublishBegin h mid)))) = Some (mid, act, 0)) /\
+  (act = [] -> snd (tstep mx s (TPublishBegin h mid)) = []).
+Proof. exact topic_publish_snapshot. Qed.
+Print Assumptions c19_topic_publish_snapshot.
+
+(** Topic: whatever else happens meanwhile, a running publish ends with exactly
+    one delivery per subscriber of its snapshot, stamped with the clock at that
+    moment (not the publish-time clock). *)
+Theorem c19_topic_exactly_once : forall mx s h mid act i ops now,
+  lookup h (t_frames s) = Some (mid, act, i) ->
+  Forall (fun o => thandle o <> Some h) ops ->
+  let s' := fst (trun_from mx s ops) in
+  let r := tstep mx s' (TPublishResume h now) in
+  (i + 1 <? zlen act = true -> snd r = [TSuspend] /\ lookup h (t_frames (fst r)) = Some (mid, act, i + 1)) /\
+  (i + 1 <? zlen act = false -> snd r = map (fun c => TDelivery c mid now) act /\ lookup h (t_frames (fst r)) = None).
+Proof. exact topic_exactly_once. Qed.
+Print Assumptions c19_topic_exactly_once.
+
+Theorem c19_topic_publish_sync : forall mx ops mid now,
+  let s := trun mx ops in
+  snd (tstep mx s (TPublishSync mid now)) = map (fun c => TDelivery c mid now) (actives (t_subs s)) /\
+  NoDup (actives (t_subs s)).
+Proof. exact topic_publish_sync. Qed.
+Print Assumptions c19_topic_publish_sync.
